@@ -234,6 +234,12 @@ func verbatimAt(info *types.Info, v *core.V, obj types.Object, st *core.ByteStat
 		if st.IsByte(x) {
 			return true
 		}
+		// an identity entry of a lookup table indexed by the byte is the byte
+		if isTableLookup(x) {
+			if k, ok := st.Int(x); ok && int(k) == st.Byte {
+				return true
+			}
+		}
 	}
 	if s, ok := v.AST.(*ast.AssignStmt); ok && len(s.Lhs) == len(s.Rhs) {
 		for i, r := range s.Rhs {
@@ -740,6 +746,53 @@ type vcase struct {
 // in a branch (tp, f2, f3 = 1, uint64(entry.Pos), ...).
 func valueCases(g *core.Graph, at *core.V, e ast.Expr, depth int) []vcase {
 	info := g.Info
+	// a field of a local struct whose reaching definitions are composite
+	// literals (row := entry.streamRow() after inlining; row.tp): the field's
+	// expression in each literal
+	if sel, isSel := ast.Unparen(e).(*ast.SelectorExpr); isSel && depth > 0 {
+		if base, isID := ast.Unparen(sel.X).(*ast.Ident); isID {
+			if bv, isVar := info.ObjectOf(base).(*types.Var); isVar && !bv.IsField() && bv.Parent() != nil && bv.Pkg() != nil && bv.Parent() != bv.Pkg().Scope() {
+				if st, isStruct := bv.Type().Underlying().(*types.Struct); isStruct {
+					var out []vcase
+					okAll := true
+					for _, vc := range valueCases(g, at, base, depth) {
+						cl, isCL := ast.Unparen(vc.Expr).(*ast.CompositeLit)
+						if !isCL {
+							okAll = false
+							break
+						}
+						var fe ast.Expr
+						for i, el := range cl.Elts {
+							if kv, isKV := el.(*ast.KeyValueExpr); isKV {
+								if k, isK := kv.Key.(*ast.Ident); isK && k.Name == sel.Sel.Name {
+									fe = kv.Value
+								}
+							} else if i < st.NumFields() && st.Field(i).Name() == sel.Sel.Name {
+								fe = el
+							}
+						}
+						if fe == nil {
+							// field not mentioned: zero value
+							for i := 0; i < st.NumFields(); i++ {
+								if st.Field(i).Name() == sel.Sel.Name {
+									fe = zeroValueExpr(info, st.Field(i))
+								}
+							}
+						}
+						if fe == nil {
+							okAll = false
+							break
+						}
+						out = append(out, valueCases(g, vc.V, fe, depth-1)...)
+					}
+					if okAll && len(out) > 0 {
+						return out
+					}
+				}
+			}
+		}
+		return []vcase{{e, at}}
+	}
 	id, ok := ast.Unparen(e).(*ast.Ident)
 	if !ok || depth <= 0 {
 		return []vcase{{e, at}}
@@ -1245,4 +1298,18 @@ func naturalLoop(g *core.Graph, head *core.V) map[*core.V]bool {
 		}
 	}
 	return in
+}
+
+// isTableLookup: table[i] or table[i].field.
+func isTableLookup(e ast.Expr) bool {
+	e = ast.Unparen(e)
+	if sel, ok := e.(*ast.SelectorExpr); ok {
+		e = ast.Unparen(sel.X)
+	}
+	ix, ok := e.(*ast.IndexExpr)
+	if !ok {
+		return false
+	}
+	_, isID := ast.Unparen(ix.X).(*ast.Ident)
+	return isID
 }
